@@ -4,6 +4,8 @@
 package rw
 
 import (
+	"bytes"
+	"io"
 	"time"
 
 	"github.com/anishathalye/porcupine"
@@ -32,9 +34,12 @@ const (
 	opBefore
 	opRead
 	opWriteEmpty
+	opCopy         // io.Copy(w, reader): uses a ReadFrom fast path if the writer has one
+	opWriteString  // io.WriteString(w, s): uses a WriteString fast path if the writer has one
+	opBeforeNested // a hook that registers another hook when it runs
 )
 
-var opNames = []string{"WriteHeader", "Write", "Flush", "Before", "Read", "Write(empty)"}
+var opNames = []string{"WriteHeader", "Write", "Flush", "Before", "Read", "Write(empty)", "io.Copy", "io.WriteString", "Before(nesting)"}
 
 type op struct {
 	Kind      int
@@ -47,13 +52,14 @@ type op struct {
 var methods = []string{"GET", "HEAD", "POST", "PUT", "DELETE", "OPTIONS", "", "head", "CONNECT"}
 
 // codes a history may send on purpose (informational, empty-body and error statuses included).
-var codes = []int{200, 201, 204, 301, 304, 404, 418, 500, 100, 103, 599, 999}
+var codes = []int{200, 201, 204, 301, 304, 404, 418, 500, 100, 103, 599, 999, 256, 512, 768, 300}
 
 type hookRun struct {
 	id     int
-	during int // index of the op that triggered it
-	status int // Status() it observed
-	spyHad int // status the spy held at that moment
+	during int  // index of the op that triggered it
+	status int  // Status() it observed
+	spyHad int  // status the spy held at that moment
+	nested bool // registered by another hook while the hooks were running
 }
 
 type opRec struct {
@@ -104,7 +110,7 @@ var model = porcupine.Model{
 				return true, out
 			}
 			return false, st
-		case opWrite, opFlush, opWriteEmpty:
+		case opWrite, opFlush, opWriteEmpty, opCopy, opWriteString:
 			if out == 200 || (in.mayFail && out == 0) {
 				return true, out
 			}
@@ -135,13 +141,16 @@ func (Engine) Run(t *tape.Tape, o eng.Opts) *eng.Result {
 	hookID := 0
 	for i := 0; i < nops; i++ {
 		gen.Begin("op")
-		k := gen.Weighted(5, 6, 3, 4, 3, 1)
+		k := gen.Weighted(5, 6, 3, 4, 3, 1, 2, 2, 1)
 		x := op{Kind: k}
 		switch k {
 		case opWriteHeader:
 			x.Code = codes[gen.Intn(len(codes))]
-		case opWrite:
+		case opWrite, opCopy, opWriteString:
 			x.N = 1 + gen.Intn(64)
+		case opBeforeNested:
+			x.HookID = hookID
+			hookID += 2 // the nested hook gets HookID+1
 		case opBefore:
 			x.HookID = hookID
 			hookID++
@@ -214,6 +223,30 @@ func (Engine) Run(t *tape.Tape, o eng.Opts) *eng.Result {
 				case opWriteEmpty:
 					n, err := w.Write(nil)
 					r.n, r.err = n, err != nil
+				case opCopy:
+					b := make([]byte, x.N)
+					for j := range b {
+						b[j] = byte('A' + (i+j)%26)
+					}
+					n, err := io.Copy(w, bytes.NewReader(b))
+					r.n, r.err = int(n), err != nil
+				case opWriteString:
+					b := make([]byte, x.N)
+					for j := range b {
+						b[j] = byte('0' + (i+j)%10)
+					}
+					n, err := io.WriteString(w, string(b))
+					r.n, r.err = n, err != nil
+				case opBeforeNested:
+					id := x.HookID
+					w.Before(func(rw flamego.ResponseWriter) {
+						sched.Yield(world.SiteBefore)
+						hooks = append(hooks, hookRun{id: id, during: curOp, status: rw.Status(), spyHad: spy.PeekCode()})
+						rw.Before(func(rw2 flamego.ResponseWriter) {
+							sched.Yield(world.SiteBefore)
+							hooks = append(hooks, hookRun{id: id + 1, during: curOp, status: rw2.Status(), spyHad: spy.PeekCode(), nested: true})
+						})
+					})
 				case opFlush:
 					w.Flush()
 				case opBefore:
@@ -382,12 +415,12 @@ func (Engine) Run(t *tape.Tape, o eng.Opts) *eng.Result {
 	// registration order vs run order, per triggering operation
 	regAt := map[int]int{}
 	for i, x := range ops {
-		if x.Kind == opBefore {
+		if x.Kind == opBefore || x.Kind == opBeforeNested {
 			regAt[x.HookID] = i
 		}
 	}
 	for i := 1; i < len(hooks); i++ {
-		if hooks[i].during == hooks[i-1].during && hooks[i].id > hooks[i-1].id {
+		if hooks[i].during == hooks[i-1].during && hooks[i].id > hooks[i-1].id && !hooks[i].nested && !hooks[i-1].nested {
 			viol("hooks-order", "BeforeFuncs ran in registration order instead of reverse order ("+itoa(hooks[i-1].id)+" before "+itoa(hooks[i].id)+")")
 		}
 	}
@@ -422,7 +455,7 @@ func (Engine) Run(t *tape.Tape, o eng.Opts) *eng.Result {
 				switch x.Kind {
 				case opWriteHeader:
 					sent = x.Code
-				case opWrite, opFlush, opWriteEmpty:
+				case opWrite, opFlush, opWriteEmpty, opCopy, opWriteString:
 					sent = 200
 				}
 			}
@@ -470,7 +503,7 @@ func (Engine) Run(t *tape.Tape, o eng.Opts) *eng.Result {
 	trigger := false
 	for i, x := range ops {
 		mixin(uint64(x.Kind)<<20 | uint64(uint16(x.Code))<<4 | uint64(x.N&15))
-		if x.Kind == opWriteHeader || x.Kind == opWrite || x.Kind == opFlush || x.Kind == opWriteEmpty {
+		if x.Kind == opWriteHeader || x.Kind == opWrite || x.Kind == opFlush || x.Kind == opWriteEmpty || x.Kind == opCopy || x.Kind == opWriteString {
 			trigger = true
 		}
 		if recs[i].panicked {
@@ -525,7 +558,7 @@ func describe(method string, flusher bool, ops []op, recs []opRec) string {
 		switch x.Kind {
 		case opWriteHeader:
 			s += "(" + itoa(x.Code) + ")"
-		case opWrite:
+		case opWrite, opCopy, opWriteString:
 			s += "(" + itoa(x.N) + "B)->" + itoa(recs[i].n)
 			if recs[i].err {
 				s += ",err"
